@@ -7,7 +7,8 @@ from vf.wellformed import check_tree
 
 ID = "C10"
 BUDGET = {"quick": 2400, "thorough": 40000}
-RULE = ("Trees of programs from G (both standards; comments dropped / kept / directives processed) and of the re-parse "
+RULE = ("Trees of programs from G (both standards; comments dropped / kept / directives processed; canonical lines or a "
+        "free-form layout with ';'-joined and continued statements) and of the re-parse "
         "of their printed text. Per tree: no node object reached twice via content/items (lists and tuples "
         "unfolded); child.parent is the node holding it; root.parent is None and get_root() is the root from every "
         "node; walk(root) yields exactly the reached nodes, once each, in pre-order; the statement-level nodes in "
@@ -24,11 +25,17 @@ def build(rnd, tier, flags):
     meta = progs.meta_of(flat)
     std = "f2008" if (meta["f08"] or g.o.f08) else r.pick(["f2003", "f2008"])
     mode = r.pick(["drop", "keep", "directives"])
-    if mode == "drop":
+    if mode == "drop" and r.chance(50):
         src = gen.canonical_source(flat, indent=True)
     else:
         o = progs.comment_only_opts(gen.ALL_NAMES)
         o.directives = 40
+        if mode == "drop":
+            o.comments = o.trailing = 0
+        # the reader's ways of handing statements over: ';'-joined lines, continuation lines
+        o.semis = r.pick([0, 20, 70])
+        o.cont = r.pick([0, 10])
+        o.excl = set(flags)
         src = layout.free_layout(flat, rnd, o).text
     return {"src": src, "std": std, "mode": mode, "meta": meta}, progs.excluded_counts(g)
 
